@@ -14,10 +14,12 @@ import (
 	"github.com/ipld/go-ipld-prime"
 	"github.com/ipld/go-ipld-prime/codec/dagcbor"
 	"github.com/ipld/go-ipld-prime/datamodel"
+	"github.com/ipld/go-ipld-prime/node/basicnode"
 
 	"github.com/ipld/go-ipld-prime/codec/dagjson"
 	"github.com/ucan-wg/go-ucan/did"
 	"github.com/ucan-wg/go-ucan/pkg/args"
+	"github.com/ucan-wg/go-ucan/pkg/command"
 	"github.com/ucan-wg/go-ucan/pkg/meta"
 	"github.com/ucan-wg/go-ucan/pkg/policy"
 	"github.com/ucan-wg/go-ucan/pkg/policy/literal"
@@ -2044,6 +2046,89 @@ func (e *wireExec) argType(s *XStep) {
 			n, _ = mm.GetNode("k")
 		}
 		check("meta.Add", n, err)
+	}
+	// a refused value is not stored: the same Args keeps working and carries only what was accepted
+	for _, form := range []string{"go", "node", "node-in-list"} {
+		var val any = v
+		if form != "go" {
+			if !representable {
+				continue
+			}
+			val = basicnode.NewInt(want)
+			if form == "node-in-list" {
+				lb := basicnode.Prototype.List.NewBuilder()
+				la, _ := lb.BeginList(1)
+				la.AssembleValue().AssignInt(want)
+				la.Finish()
+				val = lb.Build()
+			}
+		}
+		for _, target := range []string{"args", "meta"} {
+			a2, m2 := args.New(), meta.NewMeta()
+			var e0, e1, e2 error
+			var stored bool
+			var iterHas bool
+			if guard(o, target+".Add after refusal", func() {
+				if target == "args" {
+					e0 = a2.Add("first", int64(1))
+					e1 = a2.Add("k", val)
+					_, gerr := a2.GetNode("k")
+					stored = gerr == nil
+					for key := range a2.Iter() {
+						if key == "k" {
+							iterHas = true
+						}
+					}
+					e2 = a2.Add("later", int64(2))
+				} else {
+					e0 = m2.Add("first", int64(1))
+					e1 = m2.Add("k", val)
+					_, gerr := m2.GetNode("k")
+					stored = gerr == nil
+					for key := range m2.Iter() {
+						if key == "k" {
+							iterHas = true
+						}
+					}
+					e2 = m2.Add("later", int64(2))
+				}
+			}) {
+				continue
+			}
+			o.Eval("C10")
+			o.Sig("C10", "argtype-refusal", s.GoT, form, target, e1 == nil)
+			attrs := map[string]string{"go_type": s.GoT, "where": target + ".Add", "form": form}
+			if e0 != nil {
+				continue
+			}
+			if e1 != nil && (stored || iterHas) {
+				o.Violate("C10", "rejected-value-stored", fmt.Sprintf("%s.Add(%s %s(%s)) returned an error and the value is stored all the same", target, form, s.GoT, s.GoV), attrs)
+				continue
+			}
+			if e1 != nil && e2 != nil {
+				o.Violate("C10", "rejected-value-stored", fmt.Sprintf("after %s.Add refused %s(%s), adding an ordinary value to the same collection fails: %v", target, s.GoT, s.GoV, e2), attrs)
+				continue
+			}
+			if target == "args" && len(e.toks) > 0 && e.toks[0] != nil {
+				// whatever the collection holds now goes into an invocation, which must come back
+				w := e.toks[0]
+				iss := e.cast.ent(w.spec.iss())
+				var tk *invocation.Token
+				var cerr error
+				if guard(o, "invocation.New(args after refusal)", func() {
+					tk, cerr = invocation.New(iss.id, iss.id, command.MustParse("/a"), nil, invocation.WithArguments(a2))
+				}) || cerr != nil || tk == nil {
+					continue
+				}
+				sealed, _, serr := tk.ToSealed(iss.priv)
+				if serr != nil {
+					continue
+				}
+				if _, _, derr := invocation.FromSealed(sealed); derr != nil {
+					o.Violate("C10", "rejected-value-stored", fmt.Sprintf("arguments that went through a refused %s.Add(%s %s(%s)) give an invocation that seals and is not accepted back: %v", target, form, s.GoT, s.GoV, derr), attrs)
+				}
+			}
+		}
 	}
 	// nested: the reflection path
 	if !guard(o, "args.Add(nested)", func() { err = args.New().Add("k", map[string]any{"v": []any{v}}) }) {
